@@ -27,11 +27,11 @@ ROWS = {
  "C02": ("C02.check_ok_iff (nil ⇔ Key's result re-encodes to the stored digest), error-return theorems, tampered_digest_never_ok; for EVERY scheme the documented password equivalence as a predicate, 'equivalent ⇒ same verdict' and 'both verify ⇒ equivalent ∨ a named collision of the primitive' (KdfProps.*_absorbs, C02b.des/desext/bcrypt/nthash/argon2_check_absorbs); desext_twin_checks, bcryptEquiv_coarser (the algorithm's equivalence is coarser than the wording: F16, F17)",
          "T+H", "scheme (near-miss passwords under each scheme's equivalence, every digest-symbol substitution, the proved inherent equivalences replayed)", "the non-collision of the primitives is an explicit disjunct (a hypothesis, never an axiom)"),
  "C03": ("model = reference written from the published algorithm, ∀ inputs (and ∀ hash function where generic): md5crypt_eq_spec, sha2crypt_eq_spec, C03b.sha1crypt_eq_spec, sunmd5_eq_spec(_wrap), nthash_eq_spec, bcrypt_eq_spec (+ bcrypt_long_password_deviation: the documented pre-2b ≥254-byte rule), descrypt/desext_layer_eq_spec, and C03b.encrypt_eq_fips: the table-driven DES (tables regenerated from const.go) = FIPS 46-3 DES with the crypt(3) salt swap for every 64-bit key and block",
-         "T: all DES tables, permutation tables, and the KDF bodies of ALL ten schemes: md5-crypt / SHA-crypt / sha1-crypt / Permute (KdfIR) and descrypt.Key/EncodeInt/DecodeInt, desext.key/Key, des.Key, nthash.Key/encodePassword, the Sun MD5 coin-toss loop, bcrypt.Key/encode and every Key tail (KdfIR2: slot-based hash-transcript IR, closures lifted; regenerated = model for all inputs) · H: the hash/cipher primitives (MD4/MD5/SHA/Blowfish/DES rounds in Lean), Argon2 fill loop",
+         "T: all DES tables, permutation tables, and the KDF bodies of ALL ten schemes: md5-crypt / SHA-crypt / sha1-crypt / Permute (KdfIR) and descrypt.Key/EncodeInt/DecodeInt, desext.key/Key, des.Key, nthash.Key/encodePassword, the Sun MD5 coin-toss loop, bcrypt.Key/encode and every Key tail (KdfIR2: slot-based hash-transcript IR, closures lifted; regenerated = model for all inputs), and DES itself — permute816/1616, keySchedules, Encrypt (DesIR: regenerated = the table-driven model that C03b proves equal to FIPS 46-3; KdfIR2 re-instantiated with it, `_full`) · H: the hash/cipher primitives that live outside the repository (MD4/MD5/SHA/Blowfish/BLAKE2b in Lean)",
          "kdf (Go Key vs model) + xcrypt (Go vs the system's libxcrypt 4.4 via cgo, both directions)",
          "hash/cipher primitives are parameters or hand copies validated differentially; libxcrypt tie is a test; F11"),
- "C04": ("C04.key_eq_rfc (∀ P,S,p,T,m,t on 1≤p≤255, 8p≤m<2³²: model key = independent RFC 9106 reference), blake2bHash_eq_H', processBlock_eq_G, indexAlpha_eq_refIndex (regenerated kernel), roundedMemory_eq_rfc",
-         "T: indexAlpha/phi kernels · H: the rest of the model",
+ "C04": ("C04.key_eq_rfc (∀ P,S,p,T,m,t on 1≤p≤255, 8p≤m<2³²: model key = independent RFC 9106 reference), blake2bHash_eq_H', processBlock_eq_G, indexAlpha_eq_refIndex (regenerated kernel), roundedMemory_eq_rfc; Argon2IR.key_ir_eq_model / key_ir_eq_rfc: the regenerated Key (memory rounding, initHash, initBlocks, processBlocks with the lifted processSegment closure, processBlock(XOR)/blamkaGeneric with real pointer aliasing, extractKey) = the model = RFC 9106",
+         "T: the whole purego path of argon2crypto (Argon2IR; BLAKE2b is the only opaque primitive, spec with proved witness), indexAlpha/phi kernels",
          "argon, purego:argon (Go ×3 code paths vs model vs RFC reference; H'; blocks; indexAlpha; lanes up to 255)", "amd64 assembly executed and compared, never modelled"),
  "C05": ("totality of every model function (structural/fuel recursion), parser never stores nil and never returns an empty group, KDF totality, alphabet indices < 64, C16Decode.decode_never_panics",
          "T+H", "kdf + classify + parse + dispatch + b64 + stream + codec (outcome class incl. panic/timeout under recover + watchdog; bytes ≥ 0x80; lanes ≥ 64; a process-killing crash is reported with the pending operation)", "Go-side panics inside reflect/stdlib for inputs the model accepts are only sampled"),
@@ -45,10 +45,10 @@ ROWS = {
          "T: shared-state facts · measured protocol facts (hook) · H",
          "race:conc (race detector; results vs sequential table; concurrent registrations of distinct prefixes), cache", "Go memory model, sync.Map, reflect; footprints are a hand abstraction"),
  "C09": ("refset_* on the regenerated indexAlpha; schedule_independent, complete_eq_sequential; C09Link.model_fill_eq_seqFill and key_eq_any_complete_schedule (the MODEL's own fill loop is the sequential run of the lane-task system: every family of complete schedules gives the model's key = RFC 9106 by C04); workers_joined_facts (regenerated go/WaitGroup structure of processBlocks)",
-         "T: indexAlpha, goroutine-structure facts · H: model",
+         "T: processBlocks with its go/WaitGroup pattern as a task/join node (Argon2IR.processBlocks_ir_eq_model, processSegment_ir_eq_model), indexAlpha, goroutine-structure facts",
          "purego-race:argonsched (GOMAXPROCS 1,2,3,16 + noise goroutines, keys = sequential model, goroutine count), argon", "that the go/Wait syntax has the modelled meaning is runtime behaviour (observed)"),
  "C10": ("C10General.roundtrip_L6 / roundtrip_general and TiWf.roundtrip_of_typeInfoOf: for an ARBITRARY struct type that getTypeInfo accepts (tiWf is proved for everything typeInfoOf builds from supported field types) and a value inside the explicit decidable hypothesis (Unambiguous ∧ groupsSeparated; typed ∧ Representable ∧ lastTextOk ∧ noSteal) Unmarshal(Marshal v) = v — params, inline, codecs, groups, omitempty, trailing optionals; needs_* (each clause necessary); strconv round trips; parse∘render; roundtrip_/canonical_⟨S⟩ for the ten shipped layouts",
-         "T: shapes, and the type-info layer (TypeInfoIR: getRawTypeInfo with its tag loop, field, normalize, cold getTypeInfo regenerated = fieldOpts/rawFields/resolveParam/normalizeLoop/typeInfoOf) · H: Marshal/Unmarshal walkers",
+         "T: shapes, and the type-info layer (TypeInfoIR: getRawTypeInfo with its tag loop, field, normalize, cold getTypeInfo regenerated = fieldOpts/rawFields/resolveParam/normalizeLoop/typeInfoOf) and the Marshal side (CodecIR: Marshal, marshalValue, marshal, indirect, isEmpty regenerated = Codec.marshal) · H: Unmarshal walker",
          "codec (run-time generated struct types incl. layout-shaped ones; round trip, re-marshal stability; the in-domain direct check uses the theorem's hypothesis)", "codec model tied differentially; F12"),
  "C11": ("parse_lossless, parse_eq_ref (= split-based reference on every input), spans_exact, values_no_delim, groups_surface_once, parse_error_iff, lexer terminal token last, lexer_goroutine_facts (regenerated)",
          "T: the whole lexer and parser (ParseFlow/DispatchFlow: regenerated structured IR = model, for every input), goroutine-structure facts", "parse (all strings ≤ 7 over the delimiter alphabet + random; token streams via hook; goroutine count)", "the channel is modelled as a producer list (rendezvous); goroutine exit observed"),
@@ -59,8 +59,8 @@ ROWS = {
          "T: the IR itself", "purity (sentinel buffers, option structs incl. rejected/defaulted values, repeated/interleaved calls, mutated results)", "gogen's slice-effect translator and its library-call table"),
  "C14": ("guards_iff_accepts_⟨S⟩: the guard clauses regenerated from each Key ⇔ declarative bounds (Spec/Accepts.lean) with the same typed error and payload, for all argument tuples",
          "T: guards, constants", "guards (salt lengths 0..max+3, every byte at every salt position, cost boundaries, option pools, lanes 63..255)", "guard translator"),
- "C15": ("randSymbols_length / _in_alphabet / symbol_map_bijective (salt as a function of entropy), sha1 randRounds window, rand_source_pure (regenerated import facts)",
-         "T: facts, constants · H: Rand", "salt (2 000/50 000 calls per scheme: distinctness, coverage, 8σ bound; mixed histories; salt = f(entropy) under scripted entropy)", "OS entropy quality; the statistical run is a test"),
+ "C15": ("randSymbols_length / _in_alphabet / symbol_map_bijective (salt as a function of entropy), sha1 randRounds window, rand_source_pure (regenerated import facts); MiscIR.rand_ir_eq_model, cryptoutil_rand_ir_eq_model, randRounds_ir_eq_model: the regenerated salt generators = randSymbols / next n entropy bytes / the randRounds kernel, entropy consumed exactly",
+         "T: hashutil.NewEncoding/Encode/Decode/IndexAnyInvalid/Rand, cryptoutil.Rand, sha1.randRounds (MiscIR; crypto/rand as a scripted entropy reader: rand.Int(Reader, 64) = one byte & 0x3F), facts, constants", "salt (2 000/50 000 calls per scheme: distinctness, coverage, 8σ bound; mixed histories; salt = f(entropy) under scripted entropy)", "OS entropy quality; the statistical run is a test"),
  "C16": ("encode = bit-level spec, decode∘encode = id ∀ byte strings and padding modes; C16Decode.decode_eq_ref: the model's Decode (three paths, padding, newlines, strict) = an independent declarative reference decoder for ALL texts, result bytes and error offsets; accepted_is_canonical_or_tolerated, never_silent_garbage, malformed_rejected, decode_never_panics; alphabets regenerated; B64IR.*_ir_eq_model: the BODIES of Encode, EncodeToString, EncodedLen, DecodeString, Decode, decodeQuantum, assemble32/64, DecodedLen regenerated from the Go source (loops, switch/fallthrough, break/continue, slicing, PutUint64/32, int wrap-around) and interpreted over a heap of byte buffers = the hand model, for all inputs, panics included",
          "T: all twelve function bodies — the nine coders (buffer IR) and NewEncoding/WithPadding/Strict (B64IRCtor) —, symbol/quantum/assemble/length expressions, alphabets",
          "b64 (exhaustive 1-/2-byte tails, quanta sample, random strings to 4096, malformed edits incl. bytes ≥ 0xF0, both option orders)", "buffer-IR translator and interpreter; int wrap of EncodedLen beyond 2^60 and negative padding runes are outside the hand model's domain (the programs cover them)"),
@@ -71,7 +71,7 @@ ROWS = {
  "C19": ("secretSafe'_⟨S⟩ decided on the regenerated flow IR of every Check; secretSafe'_sound, mismatch_cost_independent_of_position/_of_key (cost semantics), ⟨S⟩_mismatch_cost", "T: flow IR",
          "flowcheck (names the offending statement)", "statement translator; machine-level constant time of subtle/encoders"),
  "C20": ("C10General.accepted_respell_all / TiWf.accepted_respell_of_typeInfoOf: for an ARBITRARY struct type that getTypeInfo accepts, with consistent options, every accepted string is a tolerated respelling of Marshal(value read); needs_* (exclusions necessary); Accept.accepts_only_respellings_⟨S⟩ for the ten layouts; parser lossless/exact (C11)",
-         "T: shapes, and the type-info layer (TypeInfoIR: getRawTypeInfo with its tag loop, field, normalize, cold getTypeInfo regenerated = fieldOpts/rawFields/resolveParam/normalizeLoop/typeInfoOf) · H: Marshal/Unmarshal walkers",
+         "T: shapes, and the type-info layer (TypeInfoIR: getRawTypeInfo with its tag loop, field, normalize, cold getTypeInfo regenerated = fieldOpts/rawFields/resolveParam/normalizeLoop/typeInfoOf) and the Marshal side (CodecIR: Marshal, marshalValue, marshal, indirect, isEmpty regenerated = Codec.marshal) · H: Unmarshal walker",
          "codec (edit-distance-1 neighbourhoods, splices incl. duplicated parameters and wrap-around integers, short strings; accepted-but-unwritable values)", "codec model tied differentially; F10, F13, F14, F15"),
 }
 
@@ -181,9 +181,13 @@ functions or adding comments leaves the programs unchanged (checked for each tra
 | `hash/base64le`: `Encode`, `EncodeToString`, `EncodedLen`, `DecodeString`, `Decode`, `decodeQuantum`, `assemble32/64`, `DecodedLen` | buffer IR (heap of byte buffers, slices as windows) | `Props/B64IR.lean`, `B64IRNoPanic.lean` | C16, C05 |
 | `hash/base64le`: `NewEncoding`, `WithPadding`, `Strict`; `(*encoder).Write/Close`, `NewEncoder`, `(*decoder).Read`, `(*newlineFilteringReader).Read`, `NewDecoder` | stream IR `SIR` (object store, scripted `io.Reader`/`io.Writer` as external objects, calls into the regenerated `Encode`/`Decode`) | `Props/B64IRCtor.lean`, `SIREncoder.lean`, `SIRDecoder.lean` | C16, C17 |
 | `hash/typeinfo.go`: `getRawTypeInfo` (tag loop, embedded structs), `(*typeInfo).field` (`sort.Slice` = any sorted permutation), `normalize`, `indirectType`, cold path of `getTypeInfo` | type-info IR `TIIR` (records behind pointers, `reflect.Type` as operations over struct descriptions) | `Props/TypeInfoIR.lean` | C10, C20, C18 |
+| `argon2/argon2crypto` (purego path): `Key`, `initHash`, `initBlocks`, `processBlocks` + `processSegment` closure (go/WaitGroup pattern as task/join node, sequential schedule), `extractKey`, `indexAlpha`, `phi`, `blake2bHash`, `processBlock(XOR)`, `processBlockGeneric`, `blamkaGeneric` | Argon2 IR `A2IR` (typed words with wrap-around, heap with pointer aliasing) | `Props/Argon2IR.lean` (`key_ir_eq_model`, `key_ir_eq_rfc`) | C04, C09 |
+| `des/descrypt/des.go`: `permute816`, `permute1616`, `keySchedules`, `Encrypt` | DES IR (tables by name from the regenerated `Gen/Tables`) | `Props/DesIR.lean` (`encrypt_ir_eq_model`, `desPrims_spec`, `*_full`) | C03, C05 |
+| `hash/marshal.go`: `Marshal`, `marshalValue`, `marshal`, `indirect`, `isEmpty` | codec IR (on the type-info IR's heap; `reflect.Value` as operations over a value model) | `Props/CodecIR.lean` (`marshal_eq_model`) | C10, C20 |
+| `internal/hashutil`: `NewEncoding`, `Encode`, `Decode`, `IndexAnyInvalid`, `Rand`, package variables; `cryptoutil.Rand`; `sha1.randRounds` | stream IR + library description `miscLib` (crypto/rand as scripted entropy reader) | `Props/MiscIR.lean` | C15, C05 |
 | constants, DES / permutation / alphabet tables, struct shapes and text codecs, `init` registrations, import / shared-state / goroutine-structure facts, index kernels (`indexAlpha`, `phi`, base64 shift/mask expressions, `randRounds`) | Lean definitions | used directly by the models | all |
 
-Still hand-written (tied by the correspondence suites only): the `Marshal`/`Unmarshal` walkers (`Model/Codec.lean`), the Argon2 fill loop and BLAKE2b plumbing (`Model/Kdf/Argon2.lean`; `indexAlpha`/`phi` are regenerated), the DES rounds (`descrypt.Encrypt`; its tables are regenerated and the model is proved equal to FIPS 46-3), `hashutil.Encoding` and the salt generators (`randSymbols`), the warm path of the type cache and the concurrency protocol of the registry (`Model/TypeCache.lean`, `Model/Conc.lean`, tied by measured protocol facts), and the hash/cipher primitives that live outside the repository (MD4, MD5, SHA-1/2, Blowfish, BLAKE2b: `Prim/`, validated differentially).
+Still hand-written (tied by the correspondence suites only): the `Unmarshal` walker (`Model/Codec.lean`, unmarshal half), the warm path of the type cache and the concurrency protocol of the registry (`Model/TypeCache.lean`, `Model/Conc.lean`, tied by measured protocol facts), the text (un)marshalers of the scheme field types (recognised by strict pattern matching in `gogen`), and the hash/cipher primitives that live outside the repository (MD4, MD5, SHA-1/2, Blowfish, BLAKE2b: `Prim/`, validated differentially). Model limits the regenerated proofs exposed (all outside every property's domain, stated as hypotheses of the equality theorems): `decoder.Read` on a reader that answers `(0, nil)` forever (Go spins; the model's fuel runs out silently); `omitempty` on a field of a kind outside the documented ones (bool, float, map, interface …: Go's `isEmpty` knows them and omits an empty one, the model treats the field as rejected); a partially nil pointer chain `**T` (Go writes `p=`, the model reads `.nilPtr` as 'the field itself is nil'); `EncodedLen` beyond 2^60 and negative padding runes other than `NoPadding` (Go wraps / pads with `byte(r)`; the model's `Nat`/`Option UInt8` cannot say it); DES round counts ≥ 2^32 (not expressible by a Go caller).
 
 ### 0.2 Per property
 
